@@ -33,29 +33,62 @@ Fixpoint find_node (d : dag) (t : tid) : option node :=
   end.
 
 (* ---- well-formedness --------------------------------------------------------------------------
-   (1) the dependencies of an object are (hashes of) objects created earlier;
+   Creation order is NOT dependency order in general: a jugfile may hand a task a mutable
+   container and fill it with tasks afterwards (hashes and dependencies are computed lazily), so
+   an object may depend on objects created after it.  What every loaded jugfile satisfies:
+   (1) every dependency is (the hash of) one of the objects of the jugfile;
    (2) objects with the same hash have the same name and the same set of dependencies
-       (the hash is computed from name and arguments). *)
+       (the hash is computed from name and arguments);
+   (3) the graph is acyclic: there is a topological numbering of the hashes below the number of
+       objects (every dependency gets a smaller number than its consumer). *)
 Definition agrees (n' n : node) : Prop :=
   n_tid n' = n_tid n -> n_name n' = n_name n /\ (forall x, In x (n_deps n') <-> In x (n_deps n)).
 
 Definition wf_dag (d : dag) : Prop :=
-  forall p n s, d = p ++ n :: s ->
-    (forall x, In x (n_deps n) -> In x (tids p)) /\
-    (forall n', In n' p -> agrees n' n).
+  (forall n x, In n d -> In x (n_deps n) -> In x (tids d)) /\
+  (forall n n', In n d -> In n' d -> agrees n' n) /\
+  (exists rank : tid -> nat,
+     (forall n, In n d -> rank (n_tid n) < length d) /\
+     (forall n x, In n d -> In x (n_deps n) -> rank x < rank (n_tid n))).
+
+(* the special case "every dependency was created before its consumer" (what the sqlite status
+   cache of C15 needs) *)
+Definition ordered_dag (d : dag) : Prop :=
+  forall p n s, d = p ++ n :: s -> forall x, In x (n_deps n) -> In x (tids p).
+
+Fixpoint ordered_from (earlier : list tid) (d : dag) : bool :=
+  match d with
+  | [] => true
+  | n :: r => subset_b (n_deps n) earlier && ordered_from (earlier ++ [n_tid n]) r
+  end.
+Definition ordered_dagb (d : dag) : bool := ordered_from [] d.
 
 Definition agrees_b (n' n : node) : bool :=
   if Pos.eqb (n_tid n') (n_tid n)
   then Pos.eqb (n_name n') (n_name n) && seteq_b (n_deps n') (n_deps n)
   else true.
 
-Fixpoint wf_from (earlier : list node) (d : dag) : bool :=
-  match d with
-  | [] => true
-  | n :: r => subset_b (n_deps n) (map n_tid earlier) && forallb (fun n' => agrees_b n' n) earlier &&
-              wf_from (earlier ++ [n]) r
+(* executable check: compute a candidate order (rounds of "all dependencies already placed"),
+   then CHECK that it is a topological numbering; soundness does not depend on how the candidate
+   was found (DagFacts.wf_dagb_sound) *)
+Fixpoint index_of (t : tid) (o : list tid) : nat :=
+  match o with
+  | [] => 0
+  | x :: r => if Pos.eqb x t then 0 else S (index_of t r)
   end.
-Definition wf_dagb (d : dag) : bool := wf_from [] d.
+Definition topo_pass (d : dag) (acc : list tid) : list tid :=
+  fold_left (fun acc n => if mem (n_tid n) acc then acc
+                          else if subset_b (n_deps n) acc then acc ++ [n_tid n] else acc) d acc.
+Fixpoint topo_rounds (k : nat) (d : dag) (acc : list tid) : list tid :=
+  match k with O => acc | S k' => topo_rounds k' d (topo_pass d acc) end.
+Definition topo (d : dag) : list tid := topo_rounds (length d) d [].
+
+Definition wf_with (o : list tid) (d : dag) : bool :=
+  forallb (fun n => subset_b (n_deps n) (tids d)) d &&
+  forallb (fun n => forallb (fun n' => agrees_b n' n) d) d &&
+  forallb (fun n => Nat.ltb (index_of (n_tid n) o) (length d) &&
+                    forallb (fun x => Nat.ltb (index_of x o) (index_of (n_tid n) o)) (n_deps n)) d.
+Definition wf_dagb (d : dag) : bool := wf_with (topo d) d.
 
 (* ---- reachability ------------------------------------------------------------------------------ *)
 (* a -> b : some object with hash a lists b among its direct dependencies *)
@@ -66,18 +99,6 @@ Definition edge (d : dag) (a b : tid) : Prop :=
 Inductive depends_on (d : dag) : tid -> tid -> Prop :=
 | dep_refl : forall a, depends_on d a a
 | dep_step : forall a b c, edge d a b -> depends_on d b c -> depends_on d a c.
-
-(* executable: one pass in creation order collects the tasks that are selected or have a
-   dependency already collected *)
-Fixpoint closure_from (sel : node -> bool) (d : dag) (acc : list tid) : list tid :=
-  match d with
-  | [] => acc
-  | n :: r => if sel n || existsb (fun x => mem x acc) (n_deps n)
-              then closure_from sel r (n_tid n :: acc) else closure_from sel r acc
-  end.
-Definition closure (sel : node -> bool) (d : dag) : list tid := closure_from sel d [].
-Definition depends_on_b (d : dag) (a c : tid) : bool :=
-  Pos.eqb a c || mem a (closure (fun n => Pos.eqb (n_tid n) c) d).
 
 (* ---- shared state: results and locks, keyed by hash --------------------------------------------- *)
 Definition store := tid -> bool.                 (* can_load *)
